@@ -153,6 +153,10 @@ def _correlation_nearest_neighbors_cpu(
     max_val = correlation_array[
         max_idx,
         np.arange(correlation_array.shape[1])]
+
+    # (in single precision a perfect correlation comes out as
+    # 1.00000007; a correlation coefficient lies in [-1, 1])
+    max_val = np.clip(max_val, -1.0, 1.0)
     return max_idx, max_val
 
 
